@@ -55,6 +55,7 @@ type Kernel struct {
 	Oracles    []Oracle
 	Violations []Violation
 	Probes     map[string]int
+	PointCount map[string]int
 	Faults     map[string]int
 
 	hash      [32]byte
@@ -90,6 +91,7 @@ func NewKernel(tape *Tape) *Kernel {
 		subOf:         map[uint64]int{},
 		names:         NewNames(),
 		Probes:        map[string]int{},
+		PointCount:    map[string]int{},
 		Faults:        map[string]int{},
 		pairs:         map[string]struct{}{},
 		MaxSteps:      20000,
@@ -197,6 +199,9 @@ func (k *Kernel) flush() {
 		sb.WriteByte('\n')
 		if k.keepLog {
 			k.Log = append(k.Log, &ev.Event)
+		}
+		if ev.Actor != "!sched" {
+			k.PointCount[ev.Point]++
 		}
 		pair := k.lastPoint + ">" + ev.Point
 		k.pairs[pair] = struct{}{}
